@@ -96,6 +96,20 @@ def shrink_case(case):
         yield extra
 
 
+def full_mantissa(rng, sh, near=None):
+    """Rewrite a generated shell with 53-bit exponents, coefficients and coordinates (the short dyadic inputs of the
+    other streams make most double operations exact and would hide cancellation-sensitive rewrites); with `near`, put
+    the centre a hair (1e-3 .. 1e-7 bohr) off that point."""
+    sh.exps = [Fraction(float(e) * rng.uniform(0.75, 1.25)) for e in sh.exps]
+    sh.coeffs = [[Fraction(float(c) * rng.uniform(0.75, 1.25)) for c in row] for row in sh.coeffs]
+    if near is not None:
+        w = 10.0 ** -rng.randint(3, 7)
+        sh.coord = [Fraction(float(x) + rng.uniform(-w, w)) for x in near]
+    else:
+        sh.coord = [Fraction(float(x) + rng.uniform(-0.03, 0.03)) for x in sh.coord]
+    return sh
+
+
 def gen_cases(tier, seed, salt, lmax_block=5, lmax_basis=3, extra=None, nb_quick=40, nb_thorough=300,
               block_reps_thorough=4, with_T=True, exp_hi=None, kcap_big=None, lmax_pairs=None):
     """Every (la, lb) pair at block level (K 1-4, M 1-3; coincident / collinear / far-apart-compact geometries);
@@ -125,6 +139,13 @@ def gen_cases(tier, seed, salt, lmax_block=5, lmax_basis=3, extra=None, nb_quick
                     sb.coord = [sa.coord[0], sa.coord[1], sb.coord[2]]  # same x, y
                 elif r < 0.5:
                     sa.coord = [Fraction(0)] * 3
+            r2 = rng.random()
+            if r2 < 0.12:
+                full_mantissa(rng, sa)
+                full_mantissa(rng, sb)
+            elif r2 < 0.18:
+                full_mantissa(rng, sa)
+                full_mantissa(rng, sb, near=sa.coord)      # nearly coincident centres
             c = {"kind": "block", "a": sa.to_json(), "b": sb.to_json()}
             if extra:
                 c.update(extra(rng, "block", [sa, sb]))
@@ -150,6 +171,9 @@ def gen_cases(tier, seed, salt, lmax_block=5, lmax_basis=3, extra=None, nb_quick
         n = 1 + i % 4
         lm = lmax_basis if n <= 2 else min(lmax_basis, 3)
         basis = gen_basis(rng, n, lmax=lm, kmax=3 if n > 2 else 4, mmax=2 if n > 2 else 3, exp_hi=exp_hi)
+        if i % 6 == 4:
+            for sh in basis:
+                full_mantissa(rng, sh)
         c = {"kind": "basis", "basis": [s.to_json() for s in basis], "T": None}
         if with_T and i % 3 == 2:
             nf = sum(s.nfun() for s in basis)
